@@ -8,7 +8,7 @@ git -C /repo worktree add --detach -q "$W" HEAD || exit 3
 trap 'git -C /repo worktree remove --force "$W"; rm -rf /var/tmp/fadl-sev-$$' EXIT
 DEMO_ORIG=$(cd "$W" && PYTHONPATH="$W" /venv/bin/python "$OUT/demo.py" >/dev/null 2>&1; echo $?)
 # (later repository fixes move the context of older patches: try with less context, then with patch's fuzz, before giving up)
-( cd "$W" && { git apply "$OUT/patch.diff" 2>/dev/null || git apply -C1 --recount "$OUT/patch.diff" 2>/dev/null || patch -p1 -s -F2 --no-backup-if-mismatch < "$OUT/patch.diff" >/dev/null 2>&1; } ) || { echo "PATCH DOES NOT APPLY to current /repo HEAD"; exit 3; }
+( cd "$W" && { git apply "$OUT/patch.diff" 2>/dev/null || git apply -C1 --recount "$OUT/patch.diff" 2>/dev/null || patch -p1 -s -F3 --no-backup-if-mismatch < "$OUT/patch.diff" >/dev/null 2>&1; } ) || { echo "PATCH DOES NOT APPLY to current /repo HEAD"; exit 3; }
 ( cd "$W" && /venv/bin/python -c "import ast,sys,subprocess; [ast.parse(open(f).read()) for f in subprocess.run(['git','diff','--name-only'],capture_output=True,text=True).stdout.split() if f.endswith('.py')]" ) || { echo "PATCH DOES NOT APPLY to current /repo HEAD (syntax after fuzzy apply)"; exit 3; }
 SUITE=$(cd "$W" && /venv/bin/python -m pytest -q -x -p no:cacheprovider 2>&1 | tail -1)
 DEMO_MUT=$(cd "$W" && PYTHONPATH="$W" /venv/bin/python "$OUT/demo.py" >/dev/null 2>&1; echo $?)
